@@ -29,6 +29,8 @@ class CyType:
         self.signed = signed
         self.text = text or base
 
+    pointer = False
+
     @property
     def is_buffer(self):
         return self.ndim is not None
@@ -335,6 +337,11 @@ class _Adapter:
         for d in cy.declarators:
             name = self._declname(d)
             default = getattr(d, 'default', None)
+            if type(d).__name__ in ('CPtrDeclaratorNode', 'CArrayDeclaratorNode', 'CReferenceDeclaratorNode'):
+                t = CyType(t.base, text=t.text + ('*' if 'Ptr' in type(d).__name__ else '[]'))
+                t.pointer = True
+                if default is None:
+                    default = getattr(getattr(d, 'base', None), 'default', None)
             n = ast.AnnAssign(
                 target=ast.Name(id=name, ctx=ast.Store()),
                 annotation=ast.Constant(value=t.text),
@@ -556,6 +563,13 @@ class _Adapter:
                 kws.append(ast.keyword(arg=item.key.value,
                                        value=self.expr(item.value)))
         return ast.Call(func=self.expr(cy.function), args=args, keywords=kws)
+
+    def e_AmpersandNode(self, cy):
+        return ast.Call(func=ast.Name(id='__cy_addr__', ctx=ast.Load()),
+                        args=[self.expr(cy.operand)], keywords=[])
+
+    def e_SizeofTypeNode(self, cy):
+        return ast.Call(func=ast.Name(id='__cy_sizeof__', ctx=ast.Load()), args=[], keywords=[])
 
     def e_TypecastNode(self, cy):
         c = ast.Call(func=ast.Name(id='__cy_cast__', ctx=ast.Load()),
